@@ -586,6 +586,6 @@ mod tests {
         let t = log.trace();
         assert_eq!(t.len(), 4);
         assert_eq!(t[1], OpRecord { op: OpKind::Seek, arg: -2, whence: 2, result: Ok(8) });
-        assert_eq!(t[2].result, Ok(2));
+        assert_eq!(t[2].result, Ok(3));
     }
 }
